@@ -143,14 +143,14 @@ var properties = map[string]propSpec{
 	"C13": {
 		Bounds: [2]map[string]any{
 			{"threads": "2 concurrent ExecReader calls (4 selector texts, cold and warm cache); 2 concurrent queries (7 templates incl. ASYNC, SPINASYNC and a PARALLEL join) on separate and on one shared document; 2 concurrent uses of distinct=>, mix=>, ranges and pipes through ExecReader and through FROM", "schedules": "every schedule with ≤2 (readers) / ≤1 (queries, selector functions) preemptions at synchronisation granularity; vector-clock happens-before race monitor"},
-			{"threads": "3 readers", "schedules": "≤2 preemptions"},
+			{"threads": "3 readers; query pairs additionally pair ASYNC, SPINASYNC and the PARALLEL join with themselves", "schedules": "≤2 preemptions (readers, selector functions), ≤1 (queries)"},
 		},
 		Outside: []string{"more threads", "effects below happens-before (word tearing)"},
 	},
 	"C14": {
 		Bounds: [2]map[string]any{
 			{"rows": "0..2", "calls": "ASYNC, SPINASYNC+SPIN, ONCE, ASYNC inside a derived table and a subquery, SPINASYNC inside a subquery / derived table / EXISTS / CTE; immediate functions × 3 qualifiers", "schedules": "≤1 preemption"},
-			{"rows": "0..3", "calls": "same", "schedules": "≤2 preemptions"},
+			{"rows": "0..3 (nested forms 0..2)", "calls": "same", "schedules": "≤2 preemptions for 0..2 rows (nested forms: 0..1), ≤1 preemption otherwise"},
 		},
 		Outside: []string{"completion of SPIN calls (not promised)"},
 	},
